@@ -10,6 +10,8 @@ STR_NONE = z3.Const('str_none', Str)      # representation of None inside Option
 STR_EMPTY = z3.Const('str_empty', Str)        # the literal ''
 str_rank = z3.Function('str_rank', Str, z3.IntSort())   # injective rank giving the lexicographic order of str
 class_of = z3.Function('class_of', Ref, z3.IntSort())   # dynamic class id of an object reference
+kind_of = z3.Function('kind_of', Ref, z3.IntSort())    # 1 object, 2 list, 3 set, 4 dict, 5 payload record
+KINDS = {'obj': 1, 'list': 2, 'set': 3, 'dict': 4, 'rec': 5}
 
 _OPT_SORTS = {}
 
@@ -172,6 +174,10 @@ class Unsupported(Exception):
     """The engine met something outside its subset: reported as an engine error for that function, never skipped."""
 
 
+class SpeculationFailed(Exception):
+    """non-forking evaluation attempt had to be abandoned (would fork, write the heap, or is not provably safe)"""
+
+
 class Infeasible(Exception):
     """Current path condition is unsatisfiable: path abandoned."""
 
@@ -305,6 +311,11 @@ class FnChi:
         return self._arr
 
 
+class EmptyChi:
+    def __getitem__(self, x):
+        return z3.BoolVal(False)
+
+
 def as_array(chi):
     return chi.to_array() if isinstance(chi, FnChi) else chi
 
@@ -412,10 +423,13 @@ class Heap:
         self.sorts = {}
         self.epochs = []     # list of (epoch index, alloc array before, allowed(name) -> None|'all'|pred)
         self.base = {}       # name -> list of per-epoch base terms
+        self.log = {}        # name -> list of write events since the log was last reset: ('store', ref) |
+        #                      ('havoc', allowed result for that array) | ('unknown',)
 
     def snapshot(self):
         h = Heap.__new__(Heap)
         h.runner, h.arr, h.sorts, h.epochs, h.base = self.runner, dict(self.arr), self.sorts, list(self.epochs), self.base
+        h.log = {}
         return h
 
     def _initial(self, name, sort, upto):
@@ -431,6 +445,7 @@ class Heap:
             if a is None:
                 chain.append(prev)
             else:
+                self.log.setdefault(name, []).append(('havoc', a))
                 new = z3.Const(f'{name}@{e}', sort)
                 if a != 'all':
                     r = z3.Const('r!frame', Ref)
@@ -449,6 +464,11 @@ class Heap:
 
     def set(self, name, term):
         self.sorts.setdefault(name, term.sort())
+        cur = self.arr.get(name)
+        if cur is not None and z3.is_app(term) and term.decl().kind() == z3.Z3_OP_STORE and term.arg(0).eq(cur):
+            self.log.setdefault(name, []).append(('store', term.arg(1)))
+        elif cur is None or not term.eq(cur):
+            self.log.setdefault(name, []).append(('unknown',))
         self.arr[name] = term
 
     def havoc(self, allowed):
@@ -475,6 +495,9 @@ class Heap:
                                                                new[r] == cur[n][r])), silent=True)
             chain.append(new)
             self.arr[n] = new
+            if a is not None:
+                self.log.setdefault(n, []).append(('havoc', a))
+        self.pending_havocs = getattr(self, 'pending_havocs', [])
         # allocation only grows
         if 'alloc' in self.arr:
             r = z3.Const('r!frame', Ref)
@@ -499,6 +522,10 @@ class Obligation:
 
 def _verdict(r):
     return 'refuted' if r == z3.sat else ('discharged' if r == z3.unsat else 'undecided')
+
+
+import os as _os
+TRACE = bool(_os.environ.get('PYVC_TRACE'))
 
 
 class Budget:
@@ -532,6 +559,7 @@ class PathRunner:
         self.path_notes = []
         self.scopes = []
         self.persistent = set()
+        self.no_fork = 0
 
     def fresh(self, name, sort):
         self.fresh_n += 1
@@ -570,7 +598,17 @@ class PathRunner:
         t0 = time.time()
         if timeout:
             self.solver.set('timeout', timeout)
-        r = self.solver.check(*assumptions)
+        # z3 does not always honour its own timeout on quantified problems: a watchdog interrupts the context
+        import threading
+        wd = threading.Timer((timeout or self.budget.feas_ms) / 1000.0 + 2.0, self.solver.ctx.interrupt)
+        wd.daemon = True
+        wd.start()
+        try:
+            r = self.solver.check(*assumptions)
+        except z3.Z3Exception:
+            r = z3.unknown
+        finally:
+            wd.cancel()
         if timeout:
             self.solver.set('timeout', self.budget.feas_ms)
         self.solver_seconds += time.time() - t0
@@ -586,6 +624,8 @@ class PathRunner:
             return True
         if z3.is_false(cond):
             return False
+        if self.no_fork:
+            raise SpeculationFailed()
         if self.pos < len(self.decisions):
             d = self.decisions[self.pos]
             self.pos += 1
@@ -656,6 +696,8 @@ class PathRunner:
         if verdict != 'discharged':
             ob.smt2 = self._smt2(claim)
         self.obligations[key] = ob
+        if TRACE:
+            print(f'[trace] path {self.paths} {verdict} {name} {backend} {ob.seconds:.2f}s', flush=True)
         return verdict == 'discharged'
 
     def _bounded_refute(self, neg, model_probe):
@@ -664,7 +706,7 @@ class PathRunner:
         from . import finite
         t0 = time.time()
         try:
-            for es, er in ((1, 2), (2, 5)):
+            for es, er in ((2, 5), (4, 9)):
                 try:
                     r, m, info = finite.refute(self.pc, neg, es, er, 3000, self.str_consts)
                 except z3.Z3Exception as e:
